@@ -87,6 +87,79 @@ func makeHolePair(vConn, cConn *net.UDPConn, vResp, cResp *msg.NatHoleResp, key 
 	return errV, errC
 }
 
+// prequeued: regression variant for the repaired MakeHole defect F-C20c.  A hard NAT with irregular ports (visitor) and an
+// easy NAT (owner) get mode 2 from a fresh record: the visitor is the receiver on many sockets, the owner the sender.
+// The sender is started FIRST, so that its detect message is already queued on the receiver's candidate socket when the
+// receiver's MakeHole starts its readers; the receiver's instruction is used with ListenRandomPorts raised to 1500, which
+// makes starting the readers take longer than the first reader needs.  With the defect the first result was dropped and the
+// socket closed (sender succeeds, receiver times out).  Returns "" / a description of what went wrong, and whether it was one-sided.
+func prequeued(i int) (string, bool) {
+	c, _ := nathole.NewController(time.Hour)
+	sidCh, err := c.ListenClient("p", "sk", []string{"*"})
+	if err != nil {
+		return "listen: " + err.Error(), false
+	}
+	vConn, err1 := udpOn("127.0.20.1")
+	cConn, err2 := udpOn("127.0.20.2")
+	if err1 != nil || err2 != nil {
+		return fmt.Sprintf("bind: %v %v", err1, err2), false
+	}
+	va := vConn.LocalAddr().(*net.UDPAddr)
+	far := va.Port + 100
+	if far > 65535 {
+		far = va.Port - 100
+	}
+	vtr, ctr := &stubTr{id: 0}, &stubTr{id: 1}
+	ts := time.Now().Unix()
+	go c.HandleVisitor(&msg.NatHoleVisitor{TransactionID: fmt.Sprintf("pv%d", i), ProxyName: "p", Protocol: "quic", SignKey: util.GetAuthKey("sk", ts),
+		Timestamp: ts, MappedAddrs: []string{fmt.Sprintf("127.0.20.1:%d", far), fmt.Sprintf("127.0.20.1:%d", va.Port)}}, vtr, "u")
+	var sid string
+	select {
+	case sid = <-sidCh:
+	case <-time.After(3 * time.Second):
+		return "no sid", false
+	}
+	c.HandleClient(&msg.NatHoleClient{TransactionID: fmt.Sprintf("pc%d", i), ProxyName: "p", Sid: sid, MappedAddrs: mappedOf(cConn, false)}, ctr)
+	deadline := time.Now().Add(4 * time.Second)
+	for time.Now().Before(deadline) && (vtr.count() == 0 || ctr.count() == 0) {
+		time.Sleep(time.Millisecond)
+	}
+	if vtr.count() == 0 || ctr.count() == 0 {
+		return "responses missing", false
+	}
+	vResp, cResp := *vtr.snapshot()[0].m, ctr.snapshot()[0].m
+	if vResp.DetectBehavior.Mode != 2 || vResp.DetectBehavior.Role != "receiver" || cResp.DetectBehavior.Role != "sender" {
+		return fmt.Sprintf("unexpected instructions: mode %d visitor %s", vResp.DetectBehavior.Mode, vResp.DetectBehavior.Role), false
+	}
+	vResp.DetectBehavior.ListenRandomPorts = 1500
+	key := []byte(fmt.Sprintf("prequeued-%d", i))
+	var errS, errR string
+	var wg sync.WaitGroup
+	wg.Add(2)
+	go func() { // sender first
+		defer wg.Done()
+		ctx, cancel := context.WithTimeout(context.Background(), 25*time.Second)
+		defer cancel()
+		if _, _, err := nathole.MakeHole(ctx, cConn, cResp, key); err != nil {
+			errS = err.Error()
+		}
+	}()
+	go func() { // receiver once the sender's message is in its socket buffer
+		defer wg.Done()
+		time.Sleep(time.Duration(cResp.DetectBehavior.SendDelayMs+600) * time.Millisecond)
+		ctx, cancel := context.WithTimeout(context.Background(), 12*time.Second)
+		defer cancel()
+		if _, _, err := nathole.MakeHole(ctx, vConn, &vResp, key); err != nil {
+			errR = err.Error()
+		}
+	}()
+	wg.Wait()
+	if errS == "" && errR == "" {
+		return "", false
+	}
+	return fmt.Sprintf("sender: %q receiver: %q", errS, errR), errS == "" && errR != ""
+}
+
 func runRendezvous(cfg *hx.RunCfg) error {
 	log.InitLogger("/dev/null", "error", 0, true)
 	nathole.NatHoleTimeout = 5
@@ -229,6 +302,16 @@ func runRendezvous(cfg *hx.RunCfg) error {
 			inner.Wait()
 		}()
 	}
+	pqRes := make([]string, 3)
+	pqOne := make([]bool, 3)
+	for i := 0; i < 3; i++ {
+		i := i
+		outer.Add(1)
+		go func() {
+			defer outer.Done()
+			pqRes[i], pqOne[i] = prequeued(i)
+		}()
+	}
 	outer.Wait()
 
 	dist := map[string]int{}
@@ -240,7 +323,6 @@ func runRendezvous(cfg *hx.RunCfg) error {
 		return rows[i].index < rows[j].index
 	})
 	ran := 0
-	var candidates []map[string]string
 	for _, r := range rows {
 		switch {
 		case r.skipped:
@@ -254,19 +336,11 @@ func runRendezvous(cfg *hx.RunCfg) error {
 		default:
 			ran++
 			dist[fmt.Sprintf("mode%d_FAILED", r.mode)]++
-			// signature of the MakeHole race reported as F-C20c (multi-socket receiver drops a detect message that is
-			// already queued when its readers start, and closes that socket): the receiver timed out, the sender succeeded
-			recvErr, sndErr := r.errV, r.errC
-			if r.vRole == "sender" {
-				recvErr, sndErr = r.errC, r.errV
+			key := fmt.Sprintf("rendezvous-failed-mode%d", r.mode)
+			if (r.errV == "") != (r.errC == "") {
+				key = "rendezvous:one-sided" // one peer believes the hole is made, the other timed out, in all three attempts
 			}
-			if (r.mode == 2 || r.mode == 4) && sndErr == "" && strings.HasPrefix(recvErr, "wait detect message") {
-				candidates = append(candidates, map[string]string{"key": "nathole.go:MakeHole:first-result-dropped",
-					"what": fmt.Sprintf("mode %d receiver lost the sender's detect message in 3 attempts (sender succeeded each time): %q", r.mode, recvErr),
-					"case": fmt.Sprintf("key=%s position=%d mode=%d", r.key, r.index, r.mode)})
-				continue
-			}
-			fails = append(fails, map[string]string{"key": fmt.Sprintf("rendezvous-failed-mode%d", r.mode),
+			fails = append(fails, map[string]string{"key": key,
 				"what": fmt.Sprintf("two honest peers on loopback did not find each other (3 attempts): mode %d, walk position %d of key %s, visitor role %s, max SendDelayMs %d; visitor: %q owner: %q",
 					r.mode, r.index, r.key, r.vRole, r.delay, r.errV, r.errC),
 				"case": fmt.Sprintf("key=%s position=%d mode=%d", r.key, r.index, r.mode)})
@@ -276,12 +350,31 @@ func runRendezvous(cfg *hx.RunCfg) error {
 				r.key, r.index, r.mode, r.vRole, r.delay, r.ok, r.attempts, r.ms)})
 		}
 	}
+	pqLost, pqBad := 0, 0
+	for i := range pqRes {
+		if pqOne[i] {
+			pqLost++
+		} else if pqRes[i] != "" {
+			pqBad++
+		}
+	}
+	dist["prequeued_found_each_other"] = 3 - pqLost - pqBad
+	dist["prequeued_first_result_lost"] = pqLost
+	dist["prequeued_other_failure"] = pqBad
+	if pqLost >= 2 {
+		fails = append(fails, map[string]string{"key": "rendezvous:prequeued-first-result-dropped",
+			"what": fmt.Sprintf("MakeHole receiver lost a detect message that was queued before its readers started, in %d of 3 runs (the sender succeeded each time)", pqLost),
+			"case": strings.Join(pqRes, " | ")})
+	} else if pqBad >= 2 {
+		fails = append(fails, map[string]string{"key": "rendezvous:prequeued-failed",
+			"what": "the pre-queued mode-2 rendezvous failed in at least 2 of 3 runs", "case": strings.Join(pqRes, " | ")})
+	}
+	ran += 3
 	cfg.St["cases"] = ran
 	cfg.St["distinct_nontrivial"] = ran
 	cfg.St["distribution"] = dist
 	cfg.St["samples"] = samples
 	cfg.St["rows_walked"] = len(rows)
-	cfg.St["finding_candidates"] = candidates
 	cfg.St["failed_attempts"] = retried
 	cfg.St["one_sided_attempts"] = oneSided
 	cfg.St["label"] = "observation (runtime residue): real MakeHole for both roles over loopback UDP"
